@@ -199,3 +199,24 @@ def int_bounds(p, pred):
             else:
                 hi = n if hi is None else min(hi, n)              # x <= n
     return lo, hi
+
+
+CONVERSIONS = re.compile(r"(try_from|from_slice|from_bytes|from|into|try_into|as_ref|as_slice|as_bytes|as_str|deref|borrow|clone|to_vec|to_owned|to_bytes|into_boxed_slice|into_vec|new)$")
+
+
+def pure(t, root, conv=CONVERSIONS):
+    """t is root itself or root passed through payload projections and conversion calls only — the *whole* value, not a
+    slice, index, element or arithmetic combination of it."""
+    if isinstance(t, Sym):
+        t = t.t
+    elif not isinstance(t, tuple):
+        t = term(t)
+    if t == root:
+        return True
+    if isinstance(t, tuple) and t[:1] == ("payload",):
+        return pure(t[1], root, conv)
+    if isinstance(t, tuple) and t[:1] == ("ctor",) and len(t) == 3:
+        return pure(t[2], root, conv)
+    if isinstance(t, tuple) and t[:1] == ("call",) and conv.search(re.sub(r"<[^<>]*>", "", t[1])):
+        return any(pure(a_, root, conv) for a_ in t[2]) and not any(derives(a_, root) and not pure(a_, root, conv) for a_ in t[2])
+    return False
